@@ -1641,7 +1641,8 @@ Qed.
 
 Lemma step_of_write_at s f b off : orefa_inv s -> orefa_inv (fst (of_write_at s f b off)).
 Proof.
-  intros Hinv. unfold of_write_at. destruct (Z.ltb off 0); [exact Hinv|]. destruct b; [exact Hinv|]. prologue Hinv.
+  intros Hinv. unfold of_write_at. destruct (has (hd_mode f) OpenAppend); [exact Hinv|].
+  destruct (Z.ltb off 0); [exact Hinv|]. destruct b; [exact Hinv|]. prologue Hinv.
   destruct (on_dir nd || negb (has (hd_mode f) OpenWrite)); [exact Hinv|]. cbn [fst]. apply inv_upd_data; assumption.
 Qed.
 
